@@ -5,13 +5,13 @@ from hypothesis import strategies as st
 
 from .. import wire
 from ..engine import ok, require
-from ..simkit import ADDRS, Sim, make_sd, sd
+from ..simkit import ADDRS, Sim, make_sd, peer_addr, sd
 
 PID = "C07"
 RULE = (
     "closure: every model state (last (flag, id) or 'unseen' per key over 2 senders x 2 channels, boundary id alphabet) "
     "x every input message is executed on a fresh session store by replaying <= 4 set-up messages and then the input; "
-    "plus Hypothesis sequences of 1..60 messages over 3 senders, both on the session store directly and as real SD "
+    "plus Hypothesis sequences of 1..60 messages over up to 8 senders (3 unrelated ones, 5 that differ from one of them in one component of the socket address only: scope id, flow label, port, host) and 'crowd' steps in which 5..300 further peers send one message each, both on the session store directly and as real SD "
     "datagrams (empty/non-empty entry lists, unicast flag clear, rejected datagrams interleaved, bursts inside one loop "
     "iteration) into a protocol object whose three reboot hooks are wrapped by counting forwarders; non-trivial = "
     "contains 'flag stays set, id not increased', or a wrap (set -> clear), or traffic of another key between two "
@@ -61,10 +61,16 @@ sid = st.one_of(st.sampled_from([1, 2, 3, 0x7FFF, 0xFFFE, 0xFFFF]), st.integers(
 def _case(draw):
     mode = draw(st.sampled_from(["store", "proto", "proto"]))
     n = draw(st.integers(1, 60 if mode == "store" else 25))
-    nsend = draw(st.integers(1, 3))
+    # peers 0-2 differ in everything, 3-7 from one of them in one component of the socket address only
+    nsend = draw(st.sampled_from([1, 2, 3, 3, 8, 8]))
+    crowds = draw(st.sampled_from([0, 0, 0, 1, 2]))
     seq = []
     last = {}
     for _ in range(n):
+        if crowds and draw(st.integers(0, 7)) == 0:
+            # every one of `count` further peers sends one message (its next one) on one or both channels
+            seq.append(["crowd", draw(st.sampled_from([5, 17, 33, 70, 140, 300])), draw(st.sampled_from([False, True, None]))])
+            continue
         s = draw(st.integers(0, nsend - 1))
         mc = draw(st.booleans())
         how = draw(st.sampled_from(["next", "next", "next", "same", "back", "rand", "wrap"]))
@@ -147,14 +153,33 @@ JUNK = {
 }
 
 
+CROWD0 = 100
+
+
+def _expand(seq):
+    """crowd steps -> one message per crowd member and channel; a member's session id goes up by one each time"""
+    out = []
+    nxt = {}
+    for m in seq:
+        if m and m[0] == "crowd":
+            for mc in ((False, True) if m[2] is None else (bool(m[2]),)):
+                for k in range(max(0, int(m[1]))):
+                    i = nxt.get((k, mc), 0) + 1
+                    nxt[(k, mc)] = i
+                    out.append([CROWD0 + k, mc, True, i, {"burst": k > 0}])
+        else:
+            out.append([m[0], m[1], m[2], max(1, min(0xFFFF, m[3]))] + list(m[4:5]))
+    return out
+
+
 def run_case(case):
-    seq = [[m[0], m[1], m[2], max(1, min(0xFFFF, m[3]))] + list(m[4:5]) for m in case["seq"]]
+    seq = _expand(case["seq"])
     mode = case.get("mode", "store")
     state = {}
     if mode == "store":
         store = sd._SessionStorage()
         for n, (s, mc, flag, ident) in enumerate(m[:4] for m in seq):
-            a = ADDRS[s % len(ADDRS)]
+            a = peer_addr(s)
             exp = ref_detect(state, (a, bool(mc)), bool(flag), ident)
             got = store.check_received(a, bool(mc), bool(flag), ident)
             require(bool(got) == exp, "C07.detect", lambda: f"message #{n} {seq[n][:4]} of {[m[:4] for m in seq[:n+1]]}: library {got} expected {exp}")
@@ -180,14 +205,14 @@ def run_case(case):
                     i += 1
                 expected = []
                 for m in group:
-                    a = ADDRS[m[0] % len(ADDRS)]
+                    a = peer_addr(m[0])
                     if ref_detect(state, (a, bool(m[1])), bool(m[2]), m[3]):
                         expected.append(a)
 
                 def deliver(group=group):
                     for m in group:
                         opt = m[4] if len(m) > 4 else {}
-                        a = ADDRS[m[0] % len(ADDRS)]
+                        a = peer_addr(m[0])
                         if opt.get("junk", "none") != "none":
                             prot.datagram_received(JUNK[opt["junk"]], a, bool(m[1]))
                         prot.datagram_received(_datagram([m[0], m[1], m[2], m[3], opt]), a, bool(m[1]))
